@@ -863,6 +863,75 @@ pub fn evasion_family(rng: &mut Rng, n: usize, out: &mut Vec<Crafted>) {
     }
 }
 
+
+/// Squares from which a piece of kind `k` and colour `c` would attack `target` on an otherwise
+/// empty board.
+fn squares_attacking(target: Sq, k: Kind, c: Col) -> Vec<Sq> {
+    let mut out = Vec::new();
+    for s in 0..64u8 {
+        if s == target {
+            continue;
+        }
+        let mut p = Position::empty();
+        p.board[s as usize] = Some((c, k));
+        if p.attacked(target, c) {
+            out.push(s);
+        }
+    }
+    out
+}
+
+/// Double checks, with defenders of the checked side placed so that they attack a checker or can
+/// step between a checker and the king: the moves that would be fine in a single check and are
+/// illegal here ("in a double check only the king moves").
+pub fn double_check_family(rng: &mut Rng, n: usize, out: &mut Vec<Crafted>) {
+    let mut made = 0;
+    let mut tries = 0;
+    while made < n && tries < n * 200 {
+        tries += 1;
+        let mut p = Position::empty();
+        p.turn = if rng.chance(1, 2) { Col::W } else { Col::B };
+        let me = p.turn;
+        let opp = me.flip();
+        let ks = rng.below(64) as u8;
+        p.board[ks as usize] = Some((me, Kind::K));
+        let mut checkers: Vec<Sq> = Vec::new();
+        for _ in 0..2 {
+            let k = *rng.pick(&[Kind::Q, Kind::R, Kind::B, Kind::N, Kind::N, Kind::R, Kind::B, Kind::P]);
+            let cands: Vec<Sq> = squares_attacking(ks, k, opp).into_iter().filter(|s| p.board[*s as usize].is_none() && (k != Kind::P || (1..=6).contains(&rank_of(*s)))).collect();
+            if cands.is_empty() {
+                continue;
+            }
+            let s = *rng.pick(&cands);
+            p.board[s as usize] = Some((opp, k));
+            checkers.push(s);
+        }
+        if checkers.len() != 2 {
+            continue;
+        }
+        place_random(&mut p, rng, opp, Kind::K, 0..=7);
+        // defenders aimed at the checkers
+        for &cs in &checkers {
+            for _ in 0..rng.range(1, 2) {
+                let k = *rng.pick(&[Kind::Q, Kind::R, Kind::B, Kind::N, Kind::P, Kind::P]);
+                let cands: Vec<Sq> = squares_attacking(cs, k, me).into_iter().filter(|s| p.board[*s as usize].is_none() && (k != Kind::P || (1..=6).contains(&rank_of(*s)))).collect();
+                if !cands.is_empty() {
+                    let s = *rng.pick(&cands);
+                    p.board[s as usize] = Some((me, k));
+                }
+            }
+        }
+        for _ in 0..rng.range(0, 3) {
+            let k = *rng.pick(&[Kind::Q, Kind::R, Kind::B, Kind::N, Kind::P]);
+            place_random(&mut p, rng, me, k, if k == Kind::P { 1..=6 } else { 0..=7 });
+        }
+        if p.chess_root_ok().is_ok() && p.checkers().len() == 2 {
+            made += 1;
+            out.push(Crafted { family: "double-check", pre: p, moves: vec![] });
+        }
+    }
+}
+
 /// Classic mates in one (also used by the engine monitors).
 pub const CLASSIC_MATES: &[&str] = &[
     "6k1/5ppp/8/8/8/8/8/R3K3 w Q - 0 1",
